@@ -238,6 +238,28 @@ def build_component(extra):
     return f
 
 
+# ---------------------------------------------------------------- VM::begin_group
+def env_default_elem(ex, m, args, tys, st, fn, symargs):
+    return [(st, Opaque("fresh save-stack element"))]
+
+
+def env_vec_push(ex, m, args, tys, st, fn, symargs):
+    v = args[1]
+    what = getattr(v, "what", None) or ("None" if isinstance(v, Enum) and v.tag.is_const and v.tag.val == 0 else repr(v))
+    st.log.append(("push", tuple(args[0].path), what))
+    return [(st, Agg([]))]
+
+
+def post_vm_begin(a, ret, st):
+    log = st.log
+    begins = [e for e in log if e[0] == "begin"]
+    pushes = [e for e in log if e[0] == "push"]
+    ok = (len(log) == 4 and sorted(e[1] for e in begins) == [0, 1] and len(pushes) == 2
+          and pushes[0][1] != pushes[1][1]
+          and sorted(e[2] for e in pushes) == sorted(["fresh save-stack element", "None"]))
+    return tm.B(ok)
+
+
 PROP = {
     "title": "Group scoping: local assignments undone, global ones survive (mechanism level)",
     "level_text": (
@@ -251,7 +273,7 @@ PROP = {
     "explanation": "See the module docstring of props/C01.py.",
     "outside": [
         "TeX-level histories through VM::run (\\\\count, \\\\def, \\\\let, \\\\catcode, fonts, \\\\global/\\\\globaldefs prefixes): NOT decided",
-        "SaveStackMap::restore (iterates a std HashMap and calls getters through function pointers) and SaveStackMap::save's keep-the-first-value rule (std HashMap::entry); VM::begin_group / VM::end_group (three calls each; end_group builds error values)",
+        "SaveStackMap::restore (iterates a std HashMap and calls getters through function pointers) and SaveStackMap::save's keep-the-first-value rule (std HashMap::entry); VM::end_group (pops, restores through function pointers, builds error values)",
         "which tokens may follow \\\\global and the dispatch of prefixed commands (prefix.rs process_prefixes): token-level, VM-bound; only the flag's state machine (set_scope / read_and_reset_global) is decided",
         "more than 3 open groups for the protocol obligations, histories beyond the C20 bounds",
     ],
@@ -269,6 +291,13 @@ PROP = {
                  bound="closes a group in both maps; Ok iff both succeed; an error of the first is returned before the second is touched"),
             update_obligation(1), update_obligation(2), update_obligation(3),
             set_obligation(0), set_obligation(2),
+            dict(engine="B", name="c01_vm_begin_group", crates=CR, fn=("texlang", "begin_group", "VM", None), args=[("self", "&mut VM")],
+                 env_models=[(r"^GroupingContainer::<.*>::begin_group$", env_container_begin),
+                             (r"^<SaveStackElement<S> as Default>::default$", env_default_elem),
+                             (r"^Vec::<.*>::push$", env_vec_push)],
+                 post=post_vm_begin, post_state=True,
+                 funcs=["texlang::vm::VM::begin_group (MIR; Map::begin_group inlined from the dump, containers and Vec::push stubbed)"],
+                 bound="opening a group opens one group in each command map, pushes exactly one fresh element on the variable save stack and one None on the font save stack (two distinct stacks), nothing else"),
             dict(engine="B", name="c01_prefix_set_scope", crates=CRP, fn=("texlang-stdlib", "set_scope", "Component", None),
                  args=[("self", "&mut Component"), ("scope", "Scope")], build_args=build_component(True), post=post_set_scope, post_state=True,
                  witnesses=[("\\global while \\globaldefs is negative", lambda a: tm.and_(tm.lt(a["__gdv0__"], I(0)), tm.eq(a["scope"].tag, I(1))))],
